@@ -40,7 +40,8 @@ int main(void)
 			printf("@ok steps=%llu bad_at=%llu from=%llu got_state=%llu exp_state=%llu got_out=%llu\n", i, bad_at, bad_state, of_seed, exp_state, bad_out);
 		} else if (sscanf(line, "block %llu %llu %llu", &a, &b, &c) == 3) {
 			of_blocking_struct_t bs;
-			memset(&bs, 0, sizeof bs);
+			/* the result structure is an output: it is handed over holding what an earlier computation left in it */
+			memset(&bs, 0xA5, sizeof bs);
 			of_compute_blocking_struct((UINT32)a, (UINT32)b, (UINT32)c, &bs);
 			printf("\n@ok nb_blocks=%u A_large=%u A_small=%u I=%u\n", bs.nb_blocks, bs.A_large, bs.A_small, bs.I);
 		} else if (sscanf(line, "popcnt %llu", &a) == 1) {
